@@ -99,3 +99,5 @@ func (e *Env) scrub(s, cellDir string) string {
 	s = strings.ReplaceAll(s, e.Scratch, "<scratch>")
 	return s
 }
+
+func getenv(k string) string { return os.Getenv(k) }
